@@ -25,6 +25,7 @@ type c27Case struct {
 	Index   int64    `json:"index"`
 	Seed    int64    `json:"seed"`
 	Auto    bool     `json:"auto_reconnect"`
+	Stall   bool     `json:"application_does_not_read_notifications,omitempty"`
 	Steps   []string `json:"schedule"`
 	Outcome string   `json:"publish_outcome"`
 	Detail  string   `json:"detail,omitempty"`
@@ -33,6 +34,9 @@ type c27Case struct {
 type c27Srv struct {
 	mu      sync.Mutex
 	held    []func(kind string) // outstanding publish requests: answer with the given outcome
+	heldAt  []int64             // logical time of their arrival
+	clock   int64
+	created int64 // logical time of the last CreateSubscription
 	nextSub uint32
 	subs    map[uint32]bool
 	seq     uint32
@@ -49,6 +53,8 @@ func (s *c27Srv) handle(srv *refpeer.Server, sc *refpeer.SrvConn, m *refpeer.Msg
 		s.nextSub++
 		id := s.nextSub
 		s.subs[id] = true
+		s.clock++
+		s.created = s.clock
 		s.mu.Unlock()
 		sc.Reply(m, &ua.CreateSubscriptionResponse{ResponseHeader: refpeer.RespHeader(req, ua.StatusOK), SubscriptionID: id, RevisedPublishingInterval: 10, RevisedLifetimeCount: 1000, RevisedMaxKeepAliveCount: 5})
 	case *ua.DeleteSubscriptionsRequest:
@@ -64,7 +70,7 @@ func (s *c27Srv) handle(srv *refpeer.Server, sc *refpeer.SrvConn, m *refpeer.Msg
 		empty := len(s.subs) == 0
 		held := s.held
 		if empty {
-			s.held = nil
+			s.held, s.heldAt = nil, nil
 		}
 		s.mu.Unlock()
 		sc.Reply(m, &ua.DeleteSubscriptionsResponse{ResponseHeader: refpeer.RespHeader(req, ua.StatusOK), Results: res})
@@ -109,6 +115,8 @@ func (s *c27Srv) handle(srv *refpeer.Server, sc *refpeer.SrvConn, m *refpeer.Msg
 		}
 		s.mu.Lock()
 		s.held = append(s.held, answer)
+		s.clock++
+		s.heldAt = append(s.heldAt, s.clock)
 		s.mu.Unlock()
 	case *ua.TransferSubscriptionsRequest:
 		res := make([]*ua.TransferResult, len(req.SubscriptionIDs))
@@ -137,10 +145,22 @@ func (s *c27Srv) handle(srv *refpeer.Server, sc *refpeer.SrvConn, m *refpeer.Msg
 	}
 }
 
+// createdSinceHeld reports whether a subscription was created after an outstanding publish request had arrived.
+func (s *c27Srv) createdSinceHeld() bool {
+	s.mu.Lock()
+	defer s.mu.Unlock()
+	for _, at := range s.heldAt {
+		if at < s.created {
+			return true
+		}
+	}
+	return false
+}
+
 func (s *c27Srv) release(kind string) int {
 	s.mu.Lock()
 	held := s.held
-	s.held = nil
+	s.held, s.heldAt = nil, nil
 	s.mu.Unlock()
 	for _, f := range held {
 		f(kind)
@@ -207,6 +227,11 @@ func c27One(c *fw.Ctx, cs c27Case) {
 		}
 	}()
 	notif := make(chan *opcua.PublishNotificationData, 4096)
+	if cs.Stall {
+		// the application does not read its channel: the publish loop may wait for it, API calls may not
+		notif = make(chan *opcua.PublishNotificationData)
+	}
+	var resumes int64 // Subscribe calls that have returned a subscription
 	var subs []*opcua.Subscription
 	var smu sync.Mutex
 	subscribe := func() *opcua.Subscription {
@@ -217,6 +242,7 @@ func c27One(c *fw.Ctx, cs c27Case) {
 		smu.Lock()
 		subs = append(subs, s)
 		smu.Unlock()
+		atomic.AddInt64(&resumes, 1)
 		return s
 	}
 	// 1-3 subscriptions, the publish loop has a request outstanding at the server
@@ -225,6 +251,14 @@ func c27One(c *fw.Ctx, cs c27Case) {
 		subscribe()
 	}
 	st.waitHeld(1, 2*time.Second)
+	if cs.Stall {
+		// two notifications nobody takes: the loop is now inside the delivery to the application
+		st.release("notification")
+		st.waitHeld(1, 300*time.Millisecond)
+		st.release("notification")
+		time.Sleep(5 * time.Millisecond)
+	}
+	resumesBefore := atomic.LoadInt64(&resumes)
 	// application goroutines act while the request is outstanding; calls use the background context, as applications do
 	type call struct {
 		what string
@@ -261,6 +295,7 @@ func c27One(c *fw.Ctx, cs c27Case) {
 	}
 	time.Sleep(5 * time.Millisecond)
 	// now the outstanding publish request gets its outcome
+	resumedDuringHold := st.createdSinceHeld() && atomic.LoadInt64(&resumes) > resumesBefore
 	n := st.release(cs.Outcome)
 	cs.Steps = append(cs.Steps, fmt.Sprintf("%d outstanding publish request(s) answered with %s", n, cs.Outcome))
 	c.Journal(cs.Index, cs)
@@ -294,6 +329,20 @@ func c27One(c *fw.Ctx, cs c27Case) {
 		}
 	}
 	c.Eval(int64(len(calls)))
+	if cs.Stall {
+		c.Class("calls-return-while-the-application-does-not-read", 1)
+		x, cancel := context.WithTimeout(bg, 2*time.Second)
+		cdone := make(chan struct{})
+		go func() { cl.Close(x); close(cdone) }()
+		ok := fw.WaitBeats(cdone, 6000)
+		cancel()
+		closed = true
+		if !ok {
+			cs.Detail = "Close has not returned after 6000 heartbeats\n" + blockedDumpN(20000)
+			c.Violation("c27:api-call-blocked:close", fmt.Sprintf("schedule %v (application not reading): Close is blocked for good", cs.Steps), cs)
+		}
+		return
+	}
 	// the client settles: Connected again (auto-reconnect, the server is reachable all the time) or Closed
 	settled := make(chan struct{})
 	go func() {
@@ -314,7 +363,9 @@ func c27One(c *fw.Ctx, cs c27Case) {
 		return
 	}
 	c.Class("settled:"+cl.State().String(), 1)
-	if cl.State() == opcua.Connected && cs.Outcome != "no-subscription" {
+	// a BadNoSubscription answer pauses the loop rightly unless a subscription was created while the request was
+	// outstanding: then the answer belongs to the past
+	if cl.State() == opcua.Connected && (cs.Outcome != "no-subscription" || resumedDuringHold) {
 		// subscriptions both sides still know: the loop keeps a publish request at the server
 		live := 0
 		st.mu.Lock()
@@ -379,8 +430,8 @@ func c27One(c *fw.Ctx, cs c27Case) {
 		}
 		if fresh != nil {
 			got := false
-			for try := 0; try < 40 && !got; try++ {
-				if st.waitHeld(1, 150*time.Millisecond) {
+			for b0 := fw.Heartbeats(); fw.Heartbeats()-b0 < 8000 && !got; {
+				if st.waitHeld(1, 20*time.Millisecond) {
 					st.release("notification")
 				}
 				select {
@@ -388,7 +439,7 @@ func c27One(c *fw.Ctx, cs c27Case) {
 					if d != nil && d.Error == nil {
 						got = true
 					}
-				case <-time.After(50 * time.Millisecond):
+				case <-time.After(20 * time.Millisecond):
 				}
 			}
 			if !got {
@@ -481,6 +532,9 @@ func c27Run(c *fw.Ctx) error {
 		r := c.Rng("c27", i)
 		cs := c27Case{Index: i, Seed: r.Int63(), Outcome: c27Outcomes[int(i/int64(c.NBatch))%len(c27Outcomes)]}
 		cs.Auto = r.Intn(2) == 0
+		if i%9 == 4 {
+			cs.Stall, cs.Outcome = true, "notification"
+		}
 		c.Journal(i, cs)
 		c27One(c, cs)
 		c.Nontrivial(fmt.Sprintf("%d/%s/%v", cs.Seed, cs.Outcome, cs.Auto))
@@ -496,7 +550,7 @@ func init() {
 	fw.Register("C27", fw.Spec{
 		Plan: func(tier string) fw.Plan {
 			p := fw.Plan{Batches: 8, TimeoutS: 1200, MinNontrivial: 350, Level: "exploration",
-				Rule:        "the real client with 1-3 subscriptions against the scripted server, which holds the outstanding PublishRequest; 2-8 application goroutines issue Subscribe, Cancel, ForgetSubscription (also repeatedly for the same id and for unknown ids) with background contexts while it is outstanding, hook points cl.forget.beforePause / cl.publish.beforeLock delay half of the passages by up to 3 ms; then the request gets its outcome: notification, keep-alive, BadNoSubscription, BadTooManyPublishRequests, BadTimeout fault, no answer (request timeout 400 ms), connection lost; oracle: every call returns within 6000 heartbeats (goroutine dump attached otherwise), afterwards a fresh Subscribe returns and that subscription receives a notification the server sends (bounded: 40 publish rounds), Close returns; distinct = (schedule seed, outcome)",
+				Rule:        "the real client with 1-3 subscriptions against the scripted server, which holds the outstanding PublishRequest; 2-8 application goroutines issue Subscribe, Cancel, ForgetSubscription (also repeatedly for the same id and for unknown ids) with background contexts while it is outstanding, hook points cl.forget.beforePause / cl.publish.beforeLock delay half of the passages by up to 3 ms; then the request gets its outcome: notification, keep-alive, BadNoSubscription, BadTooManyPublishRequests, BadTimeout fault, no answer (request timeout 400 ms), connection lost; oracle: every call returns within 6000 heartbeats (goroutine dump attached otherwise), afterwards a fresh Subscribe returns and that subscription receives a notification the server sends (bounded: 8000 heartbeats of publish rounds), Close returns; distinct = (schedule seed, outcome)",
 				Assumptions: []string{"heartbeat clock; the scripted server answers queued publish requests with BadNoSubscription when the last subscription is deleted, as a conforming server does"}}
 			if tier == "thorough" {
 				p.Batches, p.TimeoutS, p.MinNontrivial = 16, 3400, 6000
